@@ -140,4 +140,223 @@ theorem subscribe_spec {l : LS} (h : WF l) (c t : String) :
     · simp only [beq_iff_eq]
       rw [← h.cnt]
       omega
+
+theorem holders_pos_of_mem {l : LS} (h : WF l) {c t : String} (hm : t ∈ l.clientTopics c) : 1 ≤ holders l.index t := by
+  have := holders_split h.nk c t
+  simp only [LS.clientTopics] at hm
+  simp only [hm, ind, if_true] at this
+  omega
+
+/-- `unsubscribe`: well-formedness is kept, `c` no longer holds `t`, and the result is `true` exactly on the 1→0 edge -/
+theorem unsubscribe_spec {l : LS} (h : WF l) (c t : String) :
+    WF (l.unsubscribe c t).1 ∧
+    (∀ t', holders l.index t' = holders (l.unsubscribe c t).1.index t' + ind (t' = t ∧ t ∈ l.clientTopics c)) ∧
+    ((l.unsubscribe c t).2 = true ↔ (t ∈ l.clientTopics c ∧ holders l.index t = 1)) := by
+  unfold LS.unsubscribe
+  cases hg : AL.get c l.index with
+  | none =>
+    have hct : l.clientTopics c = [] := by simp [LS.clientTopics, hg]
+    simp only [hct]
+    refine ⟨h, ?_, ?_⟩
+    · intro t'; simp [ind]
+    · simp
+  | some cur =>
+    have hct : l.clientTopics c = cur := by simp [LS.clientTopics, hg]
+    simp only [hct]
+    by_cases hc : t ∈ cur
+    · have hc2 : cur.contains t = true := by simpa using hc
+      simp only [hc2, if_true]
+      have hpos : 1 ≤ (AL.get t l.topics).getD 0 := by
+        have := holders_pos_of_mem h (c := c) (t := t) (by rw [hct]; exact hc)
+        have := h.cnt t
+        simp only [LS.count] at this
+        omega
+      -- the index afterwards
+      have hmemf : ∀ t', t' ∈ cur.filter (· != t) ↔ (t' ∈ cur ∧ t' ≠ t) := by
+        intro t'; simp
+      have hhold : ∀ t', holders l.index t' =
+          holders (if (cur.filter (· != t)).isEmpty then AL.del c l.index else AL.set c (cur.filter (· != t)) l.index) t'
+            + ind (t' = t ∧ t ∈ cur) := by
+        intro t'
+        rw [holders_split h.nk c t', hg]
+        simp only [Option.getD_some]
+        by_cases he : (cur.filter (· != t)).isEmpty = true
+        · simp only [he, if_true]
+          have hnil : cur.filter (· != t) = [] := by simpa using he
+          have hiff : t' ∈ cur ↔ t' = t := by
+            constructor
+            · intro hm
+              by_cases ht : t' = t
+              · exact ht
+              · have : t' ∈ cur.filter (· != t) := (hmemf t').mpr ⟨hm, ht⟩
+                rw [hnil] at this; simp at this
+            · intro e; subst e; exact hc
+          simp [ind, hiff, hc]
+        · simp only [he, Bool.false_eq_true, if_false]
+          rw [holders_set]
+          by_cases ht : t' = t
+          · subst ht
+            simp [ind, hc]
+          · simp [ind, ht, hmemf]
+            omega
+      refine ⟨⟨?_, ?_, ?_⟩, hhold, ?_⟩
+      · show AL.NodupKeys (if _ then _ else _)
+        split
+        · exact AL.nodupKeys_del _ h.nk
+        · exact AL.nodupKeys_set _ _ h.nk
+      · intro t'
+        show (AL.get t' (dec l.topics t)).getD 0 = _
+        rw [count_dec _ _ _ hpos]
+        have h1 := hhold t'
+        have h2 := h.cnt t'
+        have h3 := h.cnt t
+        simp only [LS.count] at h2 h3
+        by_cases ht : t' = t
+        · subst ht
+          simp [ind, hc] at h1
+          simp; omega
+        · simp [ind, ht] at h1
+          simp [ht]; omega
+      · intro c' ts hg'
+        by_cases he : (cur.filter (· != t)).isEmpty = true
+        · simp only [he, if_true] at hg'
+          rw [AL.get_del] at hg'
+          by_cases hcc : c' = c
+          · simp [hcc] at hg'
+          · simp [hcc] at hg'; exact h.nd c' ts hg'
+        · simp only [he, Bool.false_eq_true, if_false] at hg'
+          rw [AL.get_set] at hg'
+          by_cases hcc : c' = c
+          · simp [hcc] at hg'
+            subst hg'
+            exact (h.nd c cur hg).filter _
+          · simp [hcc] at hg'; exact h.nd c' ts hg'
+      · show ((AL.get t (dec l.topics t)).getD 0 == 0) = true ↔ _
+        rw [count_dec _ _ _ hpos]
+        have h3 := h.cnt t
+        simp only [LS.count] at h3
+        simp [hc]
+        omega
+    · have hc2 : cur.contains t = false := by simpa using hc
+      simp only [hc2, Bool.false_eq_true, if_false]
+      refine ⟨h, ?_, ?_⟩
+      · intro t'; simp [ind, hc]
+      · simp [hc]
+
+/-- the loop of `unsubscribeAll`: every listed topic (distinct, each with a positive counter) is decremented once; the
+    topics reported are those whose counter was 1 -/
+theorem decAll_spec (ts : List String) : ∀ (tp : List (String × Nat)), ts.Nodup →
+    (∀ t ∈ ts, 1 ≤ (AL.get t tp).getD 0) →
+    (∀ t', (AL.get t' (decAll tp ts).1).getD 0 = (AL.get t' tp).getD 0 - ind (t' ∈ ts)) ∧
+    (decAll tp ts).2 = ts.filter (fun t => (AL.get t tp).getD 0 == 1) := by
+  induction ts with
+  | nil => intro tp _ _; simp [decAll, ind]
+  | cons t ts ih =>
+    intro tp hnd hpos
+    have hnt : t ∉ ts := (List.nodup_cons.mp hnd).1
+    have hnd' : ts.Nodup := (List.nodup_cons.mp hnd).2
+    have hp : 1 ≤ (AL.get t tp).getD 0 := hpos t (by simp)
+    have hdec := fun t' => count_dec tp t t' hp
+    have hpos' : ∀ x ∈ ts, 1 ≤ (AL.get x (dec tp t)).getD 0 := by
+      intro x hx
+      have hxt : x ≠ t := fun e => hnt (e ▸ hx)
+      rw [hdec x]; simp [hxt]
+      exact hpos x (by simp [hx])
+    obtain ⟨ih1, ih2⟩ := ih (dec tp t) hnd' hpos'
+    have hfilter : ts.filter (fun x => (AL.get x (dec tp t)).getD 0 == 1) = ts.filter (fun x => (AL.get x tp).getD 0 == 1) := by
+      apply List.filter_congr
+      intro x hx
+      have hxt : x ≠ t := fun e => hnt (e ▸ hx)
+      rw [hdec x]; simp [hxt]
+    constructor
+    · intro t'
+      have e : (decAll tp (t :: ts)).1 = (decAll (dec tp t) ts).1 := by
+        simp only [decAll]; split <;> rfl
+      rw [e, ih1 t', hdec t']
+      by_cases ht : t' = t
+      · subst ht; simp [ind, hnt]
+      · simp [ind, ht]
+    · simp only [decAll]
+      rw [hdec t]
+      simp only [if_true]
+      by_cases h1 : (AL.get t tp).getD 0 = 1
+      · simp [h1, ih2, hfilter]
+      · have : ¬ (AL.get t tp).getD 0 - 1 = 0 := by omega
+        simp [h1, this, ih2, hfilter]
+
+/-- `unsubscribeAll`: the client is gone from the index, every counter it contributed to went down by one, and the topics
+    returned are exactly those it was the last holder of -/
+theorem unsubscribeAll_spec {l : LS} (h : WF l) (c : String) :
+    WF (l.unsubscribeAll c).1 ∧
+    (∀ t', holders l.index t' = holders (l.unsubscribeAll c).1.index t' + ind (t' ∈ l.clientTopics c)) ∧
+    (∀ t, t ∈ (l.unsubscribeAll c).2 ↔ (t ∈ l.clientTopics c ∧ holders l.index t = 1)) ∧
+    (l.unsubscribeAll c).2.Nodup ∧ (l.unsubscribeAll c).1.clientTopics c = [] := by
+  have hnd := clientTopics_nodup h c
+  have hpos : ∀ t ∈ l.clientTopics c, 1 ≤ (AL.get t l.topics).getD 0 := by
+    intro t ht
+    have h1 := holders_pos_of_mem h ht
+    have h2 := h.cnt t
+    simp only [LS.count] at h2
+    omega
+  obtain ⟨d1, d2⟩ := decAll_spec (l.clientTopics c) l.topics hnd hpos
+  have hhold : ∀ t', holders l.index t' = holders (AL.del c l.index) t' + ind (t' ∈ l.clientTopics c) := by
+    intro t'; exact holders_split h.nk c t'
+  unfold LS.unsubscribeAll
+  refine ⟨⟨AL.nodupKeys_del _ h.nk, ?_, ?_⟩, hhold, ?_, ?_, ?_⟩
+  · intro t'
+    show (AL.get t' (decAll l.topics (l.clientTopics c)).1).getD 0 = holders (AL.del c l.index) t'
+    rw [d1 t']
+    have h1 := hhold t'
+    have h2 := h.cnt t'
+    simp only [LS.count] at h2
+    omega
+  · intro c' ts hg
+    have hg' : AL.get c' (AL.del c l.index) = some ts := hg
+    rw [AL.get_del] at hg'
+    by_cases hcc : c' = c
+    · simp [hcc] at hg'
+    · simp [hcc] at hg'; exact h.nd c' ts hg'
+  · intro t
+    show t ∈ (decAll l.topics (l.clientTopics c)).2 ↔ _
+    rw [d2]
+    have h2 := h.cnt t
+    simp only [LS.count] at h2
+    simp [h2]
+  · show (decAll l.topics (l.clientTopics c)).2.Nodup
+    rw [d2]; exact hnd.filter _
+  · simp [LS.clientTopics, AL.get_del]
+
+/-! ### histories -/
+
+inductive Op
+  | sub (c t : String)
+  | unsub (c t : String)
+  | term (c : String)
+  deriving Repr
+
+def stepOp (l : LS) : Op → LS
+  | .sub c t => (l.subscribe c t).1
+  | .unsub c t => (l.unsubscribe c t).1
+  | .term c => (l.unsubscribeAll c).1
+
+def run (l : LS) (ops : List Op) : LS := ops.foldl stepOp l
+
+theorem wf_step {l : LS} (h : WF l) (op : Op) : WF (stepOp l op) := by
+  cases op with
+  | sub c t => exact (subscribe_spec h c t).1
+  | unsub c t => exact (unsubscribe_spec h c t).1
+  | term c => exact (unsubscribeAll_spec h c).1
+
+theorem wf_run {l : LS} (h : WF l) (ops : List Op) : WF (run l ops) := by
+  induction ops generalizing l with
+  | nil => exact h
+  | cons op ops ih => exact ih (wf_step h op)
+
+theorem wf_init (subs : List (String × String)) : WF (LS.init subs) := by
+  have : ∀ (l : LS), WF l → WF (subs.foldl (fun l p => (l.subscribe p.1 p.2).1) l) := by
+    induction subs with
+    | nil => intro l h; exact h
+    | cons p ps ih => intro l h; exact ih _ (subscribe_spec h p.1 p.2).1
+  exact this _ wf_empty
+
 end GmqttVerif.Fed.LS
